@@ -11,7 +11,10 @@ from cpverif.lib import L
 
 _SONG_EXTRAS = ['Offset = 5', 'Player2 = rhythm', 'Difficulty = 3', 'Name = "end"', 'Genre = "rock"', 'Offset = 0.25',
                 'Player2 = bass', 'PreviewStart = 30', 'MediaType = "cd"', 'Charter = "N 5 0"', 'Year = ", 2018"',
-                'MusicStream = "song.ogg"', 'PreviewEnd = 99999', 'Artist = "S 2 100"', 'Album = "Resolution = 3"']
+                'MusicStream = "song.ogg"', 'PreviewEnd = 99999', 'Artist = "S 2 100"', 'Album = "Resolution = 3"',
+                'HopoFrequency = 170', 'hopo_frequency = 1', 'EighthNoteHopo = 1', 'FiveLaneDrums = 1',
+                'SustainCutoffThreshold = 64', 'MultiplierNote = 116', 'EndEvents = 1', 'Delay = 500',
+                'StarPowerNote = 103', 'ProDrums = True', 'Difficulty = 0']
 _TS_FORMS = ["TS 3", "TS 6 3", "TS 4 2", "TS 7 3", "TS 1 0", "TS 12 3", "TS 5 2", "TS 2 1"]
 
 
@@ -131,7 +134,9 @@ def _decoys(header: str, lines: list[str], mode: int) -> dict[str, list[str]]:
 # opens a practice section, ...): what stands in [Events] never changes what a track contains
 _EVENT_WORDS = ["end", "music_start", "section Chorus 1", "lyric la", "phrase_start", "end", "music_end", "coda",
                 "phrase_end", "idle", "section end", "solo", "soloend", "half_tempo", "End", "section Verse 2a",
-                "lighting (chase)", "crowd_noclap", "play", "lyric end"]
+                "lighting (chase)", "crowd_noclap", "play", "lyric end", "normal_tempo", "crowd_lighters_fast",
+                "band_jump", "preview", "ENABLE_CHART_DYNAMICS", "section prc_intro", "lyric +", "Default", "verse",
+                "sync_wag", "crowd_realtime", "lighting ()", "section [prc_verse_1]", "music_end", "chorus"]
 
 
 def _global_events(lines: list[str]) -> list[list]:
@@ -149,7 +154,9 @@ def _global_events(lines: list[str]) -> list[list]:
 # lines that say nothing about notes or star power: track events (whatever their word) and lines that are
 # not of the format (special phrases other than type 2, lane 8, ...), which are skipped with a warning
 _INERT = ["E *", "E T", "E O", "E solo", "S 64 {n}", "E soloend", "S 0 {n}", "S 1 {n}", "E N", "E 5", "S 65 {n}",
-          "N 8 0", "E forced", "E tap", "S 66 {n}", "E sp", "E S", "N 9 {n}", "E 6", "S 3 {n}", "E hopo"]
+          "N 8 0", "E forced", "E tap", "S 66 {n}", "E sp", "E S", "N 9 {n}", "E 6", "S 3 {n}", "E hopo",
+          "E ENHANCED_OPENS", "E [ENHANCED_OPENS]", "N 32 0", "N 34 {n}", "N 64 0", "N 66 0", "E ENABLE_CHART_DYNAMICS",
+          "E H", "E P", "E open", "E 7", "E end", "E mix_3_drums0d", "E ow_face_on", "S 4 {n}", "S 20 {n}", "N 10 0"]
 
 
 def _with_inert(lines: list[str]) -> list[str]:
